@@ -3,6 +3,8 @@ EXTENDS VarMock
 \* "i" = a non-zero initial value, "z" = the zero value of the type (nil for interfaces)
 X0_3 == ("x1" :> "i" @@ "x2" :> "z" @@ "x3" :> "i")
 Owner_3 == ("x1" :> "b1" @@ "x2" :> "b1" @@ "x3" :> "b2")
+X0_1 == ("x1" :> "i")
+Owner_1 == ("x1" :> "b1")
 X0_2 == ("x1" :> "i" @@ "x2" :> "z")
 Owner_2 == ("x1" :> "b1" @@ "x2" :> "b1")
 ====
